@@ -108,11 +108,13 @@ def softmaxN [Add K] [Div K] [OfNat K 0] (n : Nat) (w : K → K) (x : Nat → Op
   Vec.tab n (fun j => wO w (x j) / Z)
 
 /-- the sorted-position removal flags of `modify_logits_for_top_p_filtering`:
-`cumulative_probs = sorted_logits.softmax(-1).cumsum(-1)`, `cumulative_probs <= 1 - top_p` -/
+`cumulative_probs = sorted_logits.softmax(-1).cumsum(-1)`, `cumulative_probs <= 1 - top_p`, then
+`sorted_indices_to_remove[..., -1] = False` (the last sorted position is always kept; a no-op in exact
+arithmetic, see `last_never_removed`) -/
 def toppRem [Add K] [Sub K] [Div K] [OfNat K 0] [OfNat K 1] [LE K] [DecidableLE K]
     (n : Nat) (w : K → K) (p : K) (σ : Nat → Nat) (x : Vec (Option K)) : Vec Bool :=
   let q := softmaxN n w (fun i => x.get (σ i))
-  Vec.tab n (fun i => decide (sumN (i + 1) q.get ≤ 1 - p))
+  Vec.tab n (fun i => if i + 1 = n then false else decide (sumN (i + 1) q.get ≤ 1 - p))
 
 /-- `modify_logits_for_top_p_filtering` guarded by `if top_p > 0` (and its own early return for
 `top_p <= 0 or top_p >= 1`); `σ = sorted_indices` of the ascending `torch.sort`; the flags are
